@@ -87,6 +87,47 @@ EXTRA = C.Kind("construct-with-more-than-the-documented-arguments", impl=_impl_e
                classify=lambda a, o: f"{a[2]}:{'constructed' if o == '1' else 'refused'}", nontrivial=lambda a, o: (a[0], a[1], a[2], o))
 
 
+def _impl_handed_out(a):
+    """what the bridge's parser hands to the callback for a series of broadcasts (the same device id coming back as a device of
+    another family): class name and type name of every object"""
+    import bridgeharness as BH
+    out = []
+    for h in a:                                      # through the parser directly ...
+        r = BH.parse_direct(h)
+        out.append((r.split(" ")[1] + "/" + r.split(" ")[2]) if r.startswith("device ") else r.split(" ")[0])
+    shown = BH.run_bridge_sequence(1, [(0, h) for h in a])      # ... and through a running bridge object
+    for d in ([] if shown == "-" else shown.split(" | ")):
+        t = d.split(" ")
+        out.append(t[1] + "/" + t[2] if len(t) > 2 and t[1].startswith("Switcher") else t[1] if len(t) > 1 else d)
+    return " ".join(out)
+
+
+def _judge_handed_out(a, out):
+    import aioswitcher.device as d
+    lines = []
+    for tok in out.split(" "):
+        if "/" in tok:
+            cls, tname = tok.split("/")
+            lines.append((f"c19accept {cls} {d.DeviceType[tname].category.name} 1", "1"))
+    return lines or [("c06gate -", "0")]
+
+
+HANDED = C.Kind("objects-handed-out-by-the-bridge", impl=_impl_handed_out, judge=_judge_handed_out,
+                classify=lambda a, o: f"{len(a)}-broadcasts", nontrivial=lambda a, o: o)
+
+
+def _handed_out_cases(rng, n):
+    import bgen as B
+    import props.c05 as c05
+    c05._sync_types()
+    cases = []
+    for _ in range(n):
+        did = rng.randbytes(3).hex()
+        fams = [rng.choice(["t1", "shutter", "thermo"]) for _ in range(rng.randrange(2, 6))]
+        cases.append([x["dgram"] for x in B.encode_all([B.gen_device(rng, f, dev_id=did) for f in fams])])
+    return cases
+
+
 def _impl_ports(tname):
     import aioswitcher.device as d
     from aioswitcher.api import SWITCHER_DEVICE_TO_TCP_PORT
@@ -111,7 +152,8 @@ def _impl_codes(_):
 CODES = C.Kind("codes", impl=_impl_codes, model=lambda _: "codes", judge=lambda _, o: [("c19codes " + o, "1")],
                classify=lambda a, o: "codes", nontrivial=lambda a, o: o)
 
-KINDS = {"construct": CONSTRUCT, "ports": PORTS, "codes": CODES, "construct-with-more-than-the-documented-arguments": EXTRA}
+KINDS = {"construct": CONSTRUCT, "ports": PORTS, "codes": CODES, "construct-with-more-than-the-documented-arguments": EXTRA,
+         "objects-handed-out-by-the-bridge": HANDED}
 
 
 def _traffic(ctx):
@@ -193,6 +235,8 @@ def streams(ctx):
     # the tables and guards are facts about the library, not about what it has been doing: look again after it has handled traffic -
     # broadcasts of every family through a bridge on the well-known and on other ports, and datagrams whose decoding fails half-way
     _traffic(ctx)
+    ctx.run_cases(HANDED, "objects-the-bridge-hands-out-for-one-id-under-changing-families", _handed_out_cases(ctx.rng, ctx.n(40, 600)),
+                  exhaustive=False, sample_every=13)
     ctx.run_cases(CONSTRUCT, "constructions-after-traffic", pairs, exhaustive=True, sample_every=13)
     ctx.run_cases(PORTS, "ports-after-traffic", types, exhaustive=True)
     ctx.run_cases(CODES, "model-codes-after-traffic", [1], exhaustive=True)
